@@ -58,6 +58,8 @@ type World struct {
 	// OnHTTP, when set, is called (once, then cleared) when a replica's REST endpoint receives a request:
 	// the harness uses it to issue another controller request while the controller is inside that call
 	OnHTTP func(addr string)
+	// OnRead: the same for a backend's ReadAt (called once, then cleared, before the answer is given)
+	OnRead func(addr string)
 }
 
 func NewWorld() *World {
@@ -155,6 +157,13 @@ func (b *Backend) WriteAt(p []byte, off int64) (int, error) {
 	return len(p), nil
 }
 func (b *Backend) ReadAt(p []byte, off int64) (int, error) {
+	b.w.mu.Lock()
+	hook := b.w.OnRead
+	b.w.OnRead = nil
+	b.w.mu.Unlock()
+	if hook != nil {
+		hook(b.Addr)
+	}
 	s := b.note("ReadAt")
 	if s == "err" {
 		b.w.answer("read:" + b.Addr + "=f")
